@@ -56,6 +56,9 @@ type VerifC35 struct {
 	running  map[uint32]bool        // handler started and not yet told to end
 	held     *frameWriteMsg         // the handler frame in flight
 	rstCodes []ErrCode              // RST_STREAM frames written so far (by the harness acting as writer)
+	acks       int                  // SETTINGS ACK frames written
+	split      bool                 // next Headers call sends HEADERS + CONTINUATION
+	readerGone bool                 // the readFrames goroutine has returned (terminal read error)
 }
 
 func NewVerifC35(maxStreams uint32) *VerifC35 {
@@ -147,6 +150,9 @@ func (v *VerifC35) pump() {
 			case StreamError:
 				v.rstCodes = append(v.rstCodes, w.Code)
 				err = wm.write.writeFrame(v.sc)
+			case writeSettingsAck:
+				v.acks++
+				err = wm.write.writeFrame(v.sc)
 			default:
 				err = wm.write.writeFrame(v.sc)
 			}
@@ -211,7 +217,100 @@ func (v *VerifC35) outcome(f func() bool) (res string) {
 
 func (v *VerifC35) readAndProcess() bool {
 	f, err := v.sc.framer.ReadFrame()
+	if terminalReadFrameError(err) {
+		v.readerGone = true // serverConn.readFrames returns after this result: no later frame is ever read
+		v.rd.Reset()
+	}
 	return v.sc.processFrameFromReader(readFrameResult{f, err, func() {}})
+}
+
+// client runs one client-frame event unless the frame reader is gone.
+func (v *VerifC35) client(write func()) string {
+	if v.readerGone {
+		return "gone"
+	}
+	write()
+	return v.outcome(v.readAndProcess)
+}
+
+// Settings sends a SETTINGS frame: ack, empty (iws < 0) or with SETTINGS_INITIAL_WINDOW_SIZE = iws.
+func (v *VerifC35) Settings(ack bool, iws int64) string {
+	if v.readerGone {
+		return "gone"
+	}
+	switch {
+	case ack:
+		v.cf.WriteSettingsAck()
+	case iws < 0:
+		v.cf.WriteSettings()
+	default:
+		v.cf.WriteSettings(Setting{SettingInitialWindowSize, uint32(iws)})
+	}
+	// processFrameFromReader in two halves (both real code) so that a rejected SETTINGS can be told from an
+	// accepted one even when a GOAWAY is already under way and nothing new is sent.
+	failed := false
+	res := v.outcome(func() bool {
+		f, err := v.sc.framer.ReadFrame()
+		if terminalReadFrameError(err) {
+			v.readerGone = true
+			v.rd.Reset()
+		}
+		if err == nil {
+			if err = v.sc.processFrame(f); err == nil {
+				return true
+			}
+		}
+		failed = true
+		return v.sc.processFrameFromReader(readFrameResult{nil, err, func() {}})
+	})
+	if !ack && failed && res == "ok" {
+		return "fail" // rejected, but a GOAWAY was already under way so nothing new is sent
+	}
+	return res
+}
+
+// Ping sends PING on stream id (0 is the legal one), optionally with the ACK flag.
+func (v *VerifC35) Ping(id uint32, ack bool) string {
+	return v.client(func() {
+		var fl Flags
+		if ack {
+			fl = FlagPingAck
+		}
+		v.cf.WriteRawFrame(FramePing, fl, id, []byte{1, 2, 3, 4, 5, 6, 7, 8})
+	})
+}
+
+func (v *VerifC35) WindowUpdate(id, inc uint32) string {
+	return v.client(func() { v.cf.WriteWindowUpdate(id, inc) })
+}
+
+func (v *VerifC35) Priority(id, dep uint32, excl bool) string {
+	return v.client(func() { v.cf.WritePriority(id, PriorityParam{StreamDep: dep, Exclusive: excl, Weight: 15}) })
+}
+
+// Continuation sends a CONTINUATION frame that follows nothing.
+func (v *VerifC35) Continuation(id uint32) string {
+	return v.client(func() { v.cf.WriteContinuation(id, true, []byte{0x82}) })
+}
+
+// HeadersBroken sends HEADERS without END_HEADERS followed by a DATA frame.
+func (v *VerifC35) HeadersBroken(id uint32) string {
+	return v.client(func() {
+		v.hbuf.Reset()
+		v.henc.WriteField(hpack.HeaderField{Name: ":method", Value: "GET"})
+		v.cf.WriteHeaders(HeadersFrameParam{StreamID: id, BlockFragment: v.hbuf.Bytes(), EndStream: true, EndHeaders: false})
+		v.cf.WriteData(id, false, []byte("x"))
+	})
+}
+
+// ClientGoAway sends a GOAWAY frame from the client.
+func (v *VerifC35) ClientGoAway() string {
+	return v.client(func() { v.cf.WriteGoAway(0, ErrCodeNo, nil) })
+}
+
+// Graceful is the serve loop's closeNotifyCh case.
+func (v *VerifC35) Graceful() string {
+	return v.outcome(func() bool { v.sc.goAway(ErrCodeNo); return true })
 }
 
 // Headers sends HEADERS (END_HEADERS) on stream id.  kind: "ok" a GET/POST request for path /<id>,
@@ -245,22 +344,36 @@ func (v *VerifC35) Headers(id uint32, end bool, kind string) string {
 		created = true
 	}
 	v.mu.Unlock()
-	v.cf.WriteHeaders(HeadersFrameParam{StreamID: id, BlockFragment: v.hbuf.Bytes(), EndStream: end, EndHeaders: true})
-	res := v.outcome(v.readAndProcess)
-	if created && res != "ok" { // no handler goroutine was started
-		v.ForgetHandler(id)
+	res := v.client(func() {
+		b := v.hbuf.Bytes()
+		if v.split && len(b) > 1 {
+			v.cf.WriteHeaders(HeadersFrameParam{StreamID: id, BlockFragment: b[:1], EndStream: end, EndHeaders: false})
+			v.cf.WriteContinuation(id, true, b[1:])
+		} else {
+			v.cf.WriteHeaders(HeadersFrameParam{StreamID: id, BlockFragment: b, EndStream: end, EndHeaders: true})
+		}
+	})
+	if created {
+		if _, live := v.sc.streams[id]; !live || res != "ok" { // no handler goroutine was started (rejected, or ignored while inGoAway)
+			v.ForgetHandler(id)
+		}
 	}
 	return res
 }
 
 func (v *VerifC35) Data(id uint32, n int, end bool) string {
-	v.cf.WriteData(id, end, bytes.Repeat([]byte{'d'}, n))
-	return v.outcome(v.readAndProcess)
+	return v.client(func() { v.cf.WriteData(id, end, bytes.Repeat([]byte{'d'}, n)) })
 }
 
 func (v *VerifC35) Rst(id uint32) string {
-	v.cf.WriteRSTStream(id, ErrCodeCancel)
-	return v.outcome(v.readAndProcess)
+	return v.client(func() { v.cf.WriteRSTStream(id, ErrCodeCancel) })
+}
+
+// HeadersSplit is Headers(id, end, "ok") sent as HEADERS + CONTINUATION.
+func (v *VerifC35) HeadersSplit(id uint32, end bool) string {
+	v.split = true
+	defer func() { v.split = false }()
+	return v.Headers(id, end, "ok")
 }
 
 // HandlerEnds lets the handler of stream id return (or panic); the frame it produces is taken from
@@ -293,6 +406,9 @@ func (v *VerifC35) HandlerEnds(id uint32, doPanic bool) string {
 		if v.held != nil {
 			return "held"
 		}
+		if q, ok := v.sc.writeSched.sq[id]; ok && !q.empty() {
+			return "queued" // GOAWAY with an error code stops the scheduler: the frame stays in the queue
+		}
 		return "skip"
 	}
 	return r
@@ -319,7 +435,8 @@ func (v *VerifC35) ForgetHandler(id uint32) {
 	v.mu.Unlock()
 }
 
-// State renders maxStreamID, curOpenStreams and the live streams.
+// State renders maxStreamID, curOpenStreams, the connection send window, SETTINGS_INITIAL_WINDOW_SIZE and the
+// live streams with their send windows.
 func (v *VerifC35) State() string {
 	var ids []int
 	for id := range v.sc.streams {
@@ -343,9 +460,9 @@ func (v *VerifC35) State() string {
 		if st.gotTrailerHeader {
 			s += "t"
 		}
-		parts = append(parts, fmt.Sprintf("%d%s", id, s))
+		parts = append(parts, fmt.Sprintf("%d%s(%d)", id, s, st.flow.n))
 	}
-	return fmt.Sprintf("%d:%d:%s", v.sc.maxStreamID, v.sc.curOpenStreams, strings.Join(parts, ","))
+	return fmt.Sprintf("%d:%d:%d:%d:%s", v.sc.maxStreamID, v.sc.curOpenStreams, v.sc.flow.n, v.sc.initialWindowSize, strings.Join(parts, ","))
 }
 
 // Close releases the handler goroutines.
